@@ -31,3 +31,9 @@ _p("C09", "proof",
    "commands with symbolic arguments and pen, and compared with the SVG 8.3 path semantics; SVGPath.walk lifts the per-command results to "
    "sequences of any length by a loop invariant. Polygon/polyline text and the exhaustive short-sequence enumeration are a bounded cross-check.",
    [BRIDGE, CPY, MATH])
+
+_p("C12", "proof",
+   "arc_to_cubic, _arc_to_cubic and the EllipticalArc methods are executed symbolically from /repo's source; case split, radii correction "
+   "(F.6.6), centre parametrisation (F.6.5), flag semantics, segment count, control-point construction and exact end point are proved as "
+   "polynomial obligations over axiomatised sin/cos/atan2/sqrt; the 0.03% bound is a pure lemma about the construction.",
+   [MATH, CPY])
